@@ -12,6 +12,7 @@ import (
 	"reflect"
 	"sort"
 	"sync"
+	"sync/atomic"
 	"time"
 
 	"github.com/miekg/dns"
@@ -39,7 +40,7 @@ type policySpec struct {
 }
 
 type admitCase struct {
-	Transport string // udp | tcp
+	Transport string // udp | tcp (in-memory) | udp-real | tcp-real (loopback sockets)
 	UDPSize   int    // 0 = default (512)
 	Policy    policySpec
 	Packets   [][]byte
@@ -278,6 +279,211 @@ func runTCP(c admitCase) (outcome, error) {
 	return out, nil
 }
 
+var validTransport = map[string]bool{"udp": true, "tcp": true, "udp-real": true, "tcp-real": true}
+
+func (c admitCase) isUDP() bool { return c.Transport == "udp" || c.Transport == "udp-real" }
+
+// countingReader counts the datagrams the server has taken from a real socket, so that the harness
+// knows when every packet has been consumed (the in-memory conn reports that itself).
+type countingReader struct {
+	dns.Reader
+	mu   *sync.Mutex
+	cond *sync.Cond
+	n    *int
+}
+
+func (r countingReader) ReadUDP(conn *net.UDPConn, timeout time.Duration) ([]byte, *dns.SessionUDP, error) {
+	m, s, err := r.Reader.ReadUDP(conn, timeout)
+	if err == nil {
+		r.mu.Lock()
+		*r.n++
+		r.cond.Broadcast()
+		r.mu.Unlock()
+	}
+	return m, s, err
+}
+
+func runRealUDP(c admitCase, wantReplies int) (outcome, error) {
+	o := &observer{}
+	pc, err := net.ListenPacket("udp", "127.0.0.1:0")
+	if err != nil {
+		return outcome{}, fmt.Errorf("listen: %v", err)
+	}
+	var mu sync.Mutex
+	cond := sync.NewCond(&mu)
+	nread := 0
+	srv := &dns.Server{PacketConn: pc, ReadTimeout: time.Hour, UDPSize: c.UDPSize}
+	srv.DecorateReader = func(r dns.Reader) dns.Reader { return countingReader{r, &mu, cond, &nread} }
+	o.configure(srv, c.Policy)
+	done, err := serveAndWait(srv)
+	if err != nil {
+		pc.Close()
+		return outcome{}, err
+	}
+	socks := make([]*net.UDPConn, len(c.Packets))
+	ports := map[int]int{} // client port -> packet index
+	defer func() {
+		for _, s := range socks {
+			if s != nil {
+				s.Close()
+			}
+		}
+	}()
+	sent := 0
+	for i, b := range c.Packets {
+		s, err := net.DialUDP("udp", nil, pc.LocalAddr().(*net.UDPAddr))
+		if err != nil {
+			shutdown(srv, done)
+			return outcome{}, fmt.Errorf("dial: %v", err)
+		}
+		socks[i] = s
+		ports[s.LocalAddr().(*net.UDPAddr).Port] = i
+		if _, err := s.Write(b); err != nil {
+			shutdown(srv, done)
+			return outcome{}, fmt.Errorf("send: %v", err)
+		}
+		sent++
+	}
+	wd := time.AfterFunc(watchdog, func() { mu.Lock(); cond.Broadcast(); mu.Unlock() })
+	end := time.Now().Add(watchdog)
+	mu.Lock()
+	for nread < sent && time.Now().Before(end) {
+		cond.Wait()
+	}
+	got := nread
+	mu.Unlock()
+	wd.Stop()
+	if got < sent {
+		shutdown(srv, done)
+		return outcome{}, fmt.Errorf("server read %d of %d datagrams from the loopback socket", got, sent)
+	}
+	if err := shutdown(srv, done); err != nil {
+		return outcome{}, err
+	}
+	out := outcome{obs: o, replies: map[int][][]byte{}}
+	// replies were written before Shutdown returned; loopback delivery is synchronous
+	// Replies were written before Shutdown returned, but under load the loopback softirq may
+	// deliver them a little later: keep reading in 5 ms windows until the expected number has been
+	// seen (plus one more window, so that surplus replies are still noticed), at most 10 s.
+	per := make([][][]byte, len(socks))
+	var wg sync.WaitGroup
+	var total int64
+	limit := time.Now().Add(10 * time.Second)
+	for i, s := range socks {
+		wg.Add(1)
+		go func(i int, s *net.UDPConn) {
+			defer wg.Done()
+			buf := make([]byte, 65535)
+			for {
+				s.SetReadDeadline(time.Now().Add(5 * time.Millisecond))
+				n, err := s.Read(buf)
+				if err == nil {
+					per[i] = append(per[i], append([]byte{}, buf[:n]...))
+					atomic.AddInt64(&total, 1)
+					continue
+				}
+				if atomic.LoadInt64(&total) >= int64(wantReplies) || time.Now().After(limit) {
+					return
+				}
+			}
+		}(i, s)
+	}
+	wg.Wait()
+	for i := range per {
+		if len(per[i]) > 0 {
+			out.replies[basePort+i] = per[i]
+		}
+	}
+	for k := range o.handled {
+		if i, ok := ports[o.handled[k].port]; ok {
+			o.handled[k].port = basePort + i
+		}
+	}
+	return out, nil
+}
+
+func runRealTCP(c admitCase) (outcome, error) {
+	o := &observer{}
+	lis, err := net.Listen("tcp", "127.0.0.1:0")
+	if err != nil {
+		return outcome{}, fmt.Errorf("listen: %v", err)
+	}
+	srv := &dns.Server{Listener: lis, ReadTimeout: time.Hour, IdleTimeout: func() time.Duration { return time.Hour }}
+	o.configure(srv, c.Policy)
+	done, err := serveAndWait(srv)
+	if err != nil {
+		lis.Close()
+		return outcome{}, err
+	}
+	nconn := 0
+	for i := range c.Packets {
+		if k := c.connOf(i); k+1 > nconn {
+			nconn = k + 1
+		}
+	}
+	type connRes struct {
+		raw  []byte
+		err  error
+		port int
+	}
+	res := make([]connRes, nconn)
+	var wg sync.WaitGroup
+	for k := 0; k < nconn; k++ {
+		var stream []byte
+		for i, b := range c.Packets {
+			if c.connOf(i) == k {
+				stream = binary.BigEndian.AppendUint16(stream, uint16(len(b)))
+				stream = append(stream, b...)
+			}
+		}
+		cli, err := net.Dial("tcp", lis.Addr().String())
+		if err != nil {
+			res[k].err = err
+			continue
+		}
+		res[k].port = cli.LocalAddr().(*net.TCPAddr).Port
+		wg.Add(1)
+		go func(k int, cli net.Conn, stream []byte) {
+			defer wg.Done()
+			defer cli.Close()
+			if _, err := cli.Write(stream); err != nil {
+				res[k].err = err
+				return
+			}
+			cli.(*net.TCPConn).CloseWrite()
+			cli.SetReadDeadline(time.Now().Add(watchdog))
+			res[k].raw, res[k].err = io.ReadAll(cli)
+		}(k, cli, stream)
+	}
+	wg.Wait()
+	if err := shutdown(srv, done); err != nil {
+		return outcome{}, err
+	}
+	out := outcome{obs: o, replies: map[int][][]byte{}}
+	portToConn := map[int]int{}
+	for k := range res {
+		if res[k].err != nil {
+			return outcome{}, fmt.Errorf("connection %d: %v", k, res[k].err)
+		}
+		portToConn[res[k].port] = k
+		raw := res[k].raw
+		for len(raw) > 0 {
+			if len(raw) < 2 || len(raw) < 2+int(binary.BigEndian.Uint16(raw)) {
+				return out, pbt.Errf("connection %d: reply stream is not a sequence of length-prefixed messages (%d octets left)", k, len(raw))
+			}
+			n := int(binary.BigEndian.Uint16(raw))
+			out.replies[40000+k] = append(out.replies[40000+k], raw[2:2+n])
+			raw = raw[2+n:]
+		}
+	}
+	for i := range o.handled {
+		if k, ok := portToConn[o.handled[i].port]; ok {
+			o.handled[i].port = 40000 + k
+		}
+	}
+	return out, nil
+}
+
 func (c admitCase) connOf(i int) int {
 	if i < len(c.ConnOf) {
 		return ((c.ConnOf[i] % 3) + 3) % 3
@@ -295,7 +501,7 @@ type expect struct {
 }
 
 func expectFor(c admitCase, b []byte) expect {
-	if c.Transport == "udp" {
+	if c.isUDP() {
 		size := c.UDPSize
 		if size == 0 {
 			size = dns.MinMsgSize
@@ -376,7 +582,7 @@ func sortedHex(bs [][]byte) []string {
 }
 
 func checkAdmit(c admitCase) error {
-	if len(c.Packets) == 0 || len(c.Packets) > 64 || (c.Transport != "udp" && c.Transport != "tcp") {
+	if len(c.Packets) == 0 || len(c.Packets) > 64 || !validTransport[c.Transport] {
 		pbt.Note(nil, false, "invalid-case")
 		return nil
 	}
@@ -396,20 +602,31 @@ func checkAdmit(c admitCase) error {
 			nontrivial = true
 		}
 	}
-	pbt.Note(kb, nontrivial, classes...)
-	for i := range exp {
-		pbt.Class("disp=" + exp[i].disp)
-		if exp[i].disp == "handler" && len(exp[i].octets) == 12 {
-			pbt.Class("handler-header-only")
+	if !quietStats {
+		pbt.Note(kb, nontrivial, classes...)
+		for i := range exp {
+			pbt.Class("disp=" + exp[i].disp)
+			if exp[i].disp == "handler" && len(exp[i].octets) == 12 {
+				pbt.Class("handler-header-only")
+			}
 		}
 	}
 
 	var out outcome
 	var err error
-	if c.Transport == "udp" {
+	switch c.Transport {
+	case "udp":
 		out, err = runUDP(c)
-	} else {
+	case "tcp":
 		out, err = runTCP(c)
+	case "udp-real":
+		want := 0
+		for _, e := range exp {
+			want += e.replies
+		}
+		out, err = runRealUDP(c, want)
+	default:
+		out, err = runRealTCP(c)
 	}
 	if err != nil {
 		return err
@@ -444,7 +661,7 @@ func checkAdmit(c admitCase) error {
 		}
 	}
 
-	if c.Transport == "udp" {
+	if c.isUDP() {
 		byPort := map[int][]*dns.Msg{}
 		for _, h := range o.handled {
 			byPort[h.port] = append(byPort[h.port], h.req)
@@ -669,8 +886,8 @@ func genPolicy(t *rapid.T) policySpec {
 }
 
 func genAdmit(t *rapid.T) admitCase {
-	c := admitCase{Transport: rapid.SampledFrom([]string{"udp", "udp", "tcp"}).Draw(t, "transport")}
-	if c.Transport == "udp" && rapid.IntRange(0, 3).Draw(t, "bigbuf") == 0 {
+	c := admitCase{Transport: rapid.SampledFrom([]string{"udp", "udp", "udp", "udp", "tcp", "tcp", "tcp", "udp-real", "tcp-real"}).Draw(t, "transport")}
+	if c.isUDP() && rapid.IntRange(0, 3).Draw(t, "bigbuf") == 0 {
 		c.UDPSize = 4096
 	}
 	c.Policy = genPolicy(t)
